@@ -44,10 +44,22 @@ Lemma orig_map_exceeds_max :
   fst (sizes (fold_left (fun im ti => report_orig small_cfg im (fst ti) (snd ti)) (rereports ++ distinct10) (mkIM [] [])))
   = 11%nat.
 Proof. vm_compute. reflexivity. Qed.
-(* the repaired code on the same reports *)
+(* the repaired code on the same reports: the FIFO is compacted at 8 = 2 * 4 entries, the
+   eviction loop pops past the stale entries *)
 Lemma repaired_issue_memory :
   sizes (s_im (run allpol nodecay small_cfg (init_st small_cfg 0)
+                   (map (fun ti => Report (fst ti) (snd ti)) rereports))) = (1%nat, 8%nat)
+  /\ sizes (s_im (run allpol nodecay small_cfg (init_st small_cfg 0)
                    (map (fun ti => Report (fst ti) (snd ti)) (rereports ++ distinct10)))) = (4%nat, 4%nat).
+Proof. vm_compute. split; reflexivity. Qed.
+(* with a zero deduplication window and equal timestamps the debug assertion of pop_front is
+   reachable (also in the unrepaired code): the premise of issue_memory_bounded /
+   worker_never_panics is needed *)
+Lemma zero_window_same_instant_hits_assert :
+  let c := mkCfg 1 2 3 100000000000 2000000000 5000000000 30000000000 1000000000 10000000000 2 1 0 2 0 (1 # 10) in
+  s_panic (run allpol nodecay c (init_st c 0)
+               [Report 5 (IInterfaceDown 10 3); Report 5 (IInterfaceDown 10 3); Report 6 (IInterfaceDown 11 7);
+                Report 7 (IInterfaceDown 12 7); Report 8 (IInterfaceDown 13 7)]) = Some P_FIFO_VACANT.
 Proof. vm_compute. reflexivity. Qed.
 
 (* hand-out before the repair: the slot as it is *)
